@@ -200,6 +200,9 @@ type nodeH struct {
 	poisoned     string
 	poisonedNote string
 	calls        []*nodeCall
+	// announcements of the current honest tip that the honest remote
+	// delivered while the client believed its headers were current
+	announcedWhileCurrent int
 	tx           *wire.MsgTx // C15: the transaction being broadcast
 	txPhase      int         // 0 until the first block event after the broadcast, then 1
 	txErr        error
@@ -570,6 +573,13 @@ func (h *nodeH) handle(cn *nodeConn) {
 	cn.queue = cn.queue[1:]
 	cn.mu.Unlock()
 	if it.announce != nil {
+		// An announcement that reaches a client which believes its headers
+		// are current must make it fetch the announced chain; one that
+		// arrives during initial sync from a non-sync peer is ignored by
+		// design and made up for at the next announcement.
+		if cn.p.name == "H" && *it.announce == h.honestTip().Hash && h.cs.blockManager.BlockHeadersSynced() {
+			h.announcedWhileCurrent++
+		}
 		inv := wire.NewMsgInv()
 		_ = inv.AddInvVect(wire.NewInvVect(wire.InvTypeBlock, it.announce))
 		h.send(cn, []wire.Message{inv})
@@ -597,7 +607,7 @@ func (h *nodeH) handle(cn *nodeConn) {
 
 // announce queues a block announcement on every live connection of a remote
 // whose view ends in tip.
-func (h *nodeH) announceTip() {
+func (h *nodeH) announceTip() (byHonest bool) {
 	for _, p := range h.peers {
 		if p.conn == nil || p.conn.isClosed() || !p.conn.ready {
 			continue
@@ -610,7 +620,11 @@ func (h *nodeH) announceTip() {
 		p.conn.mu.Lock()
 		p.conn.queue = append(p.conn.queue, nodeItem{announce: &tip})
 		p.conn.mu.Unlock()
+		if p.name == "H" {
+			byHonest = true
+		}
 	}
+	return byHonest
 }
 
 func (h *nodeH) honestTip() *verifchain.Node { return h.honest[len(h.honest)-1] }
@@ -887,7 +901,10 @@ func nodeRun(c *verifeng.Chooser, f *nodeFix, env *verifhfs.Env, mode nodeMode, 
 		h.announceTip()
 	}
 	reorg := func() {
-		h.honest = append(append([]*verifchain.Node{}, f.trunk[:2]...), f.fork[:nodeForkLen-1]...)
+		// onto the fork from T1 that is exactly one block longer than the
+		// chain it replaces: the smallest margin by which a branch wins
+		tip := h.honestTip().Height
+		h.honest = append(append([]*verifchain.Node{}, f.trunk[:2]...), f.fork[:tip]...)
 		h.announceTip()
 	}
 	var script []nodeEv
@@ -906,9 +923,9 @@ func nodeRun(c *verifeng.Chooser, f *nodeFix, env *verifhfs.Env, mode nodeMode, 
 	idle := 0 // virtual seconds spent waiting in the current stage
 	// A client that follows a lighter chain from its sync peer only looks
 	// at the other peers' chains again when they announce a block, so
-	// convergence is demanded after the last growth of the honest chain;
-	// before the earlier events the harness waits a shorter time and moves
-	// on.
+	// before the honest remote's first announcement to a client that is
+	// current the harness waits a shorter time and moves on; after that
+	// convergence is demanded after every chain event.
 	const horizon = 300
 	const stageWait = 90
 	steps := 0
@@ -947,7 +964,7 @@ func nodeRun(c *verifeng.Chooser, f *nodeFix, env *verifhfs.Env, mode nodeMode, 
 				menu = append(menu, nodeAct{name: "end"})
 			case ok:
 				menu = append(menu, nodeAct{name: script[next].name, run: fire(script[next])})
-			case next < len(script) && idle >= stageWait:
+			case next < len(script) && idle >= stageWait && (h.announcedWhileCurrent == 0 || mode.name != "C04"):
 				c.Note("not converged after %d s: %s", idle, why)
 				menu = append(menu, nodeAct{name: script[next].name, run: fire(script[next])})
 			case idle >= horizon:
